@@ -1,6 +1,7 @@
 from __future__ import absolute_import, division, unicode_literals
 
 from . import base
+from ..constants import namespaces
 
 
 class Filter(base.Filter):
@@ -18,7 +19,11 @@ class Filter(base.Filter):
     def __iter__(self):
         for previous, token, next in self.slider():
             type = token["type"]
-            if type == "StartTag":
+            if (type in ("StartTag", "EndTag") and
+                    token.get("namespace") not in (None, namespaces["html"])):
+                # No tag of an SVG or MathML element can be omitted
+                yield token
+            elif type == "StartTag":
                 if (token["data"] or
                         not self.is_optional_start(token["name"], previous, next)):
                     yield token
